@@ -395,7 +395,7 @@ def g3(ctx, F, D):
 def ray_body_generator(ctx, fn, lb, m, names, sym, kind):
     """if let Some(new_pos) = pos.add(delta) { place = get_position(new_pos); if occupied { if enemy {push}; break } push } else { break }"""
     root = fn["hir"]["body"]
-    pushes = [n for n, _ in hir.walk(lb) if n.get("k") == "Call" and hir.strip(n["f"]).get("to", {}).get("name") == "push"]
+    pushes = [n for n, _ in hir.walk(lb) if n.get("k") == "Call" and _SUFFIX.sub("", hir.strip(n["f"]).get("to", {}).get("name") or "") == "push"]
     breaks = [n for n, _ in hir.walk(lb) if n.get("k") == "Break"]
     d = names[0] if names else "?"
     edge = occupied = False
@@ -458,7 +458,7 @@ def pushes_of(fn, F):
     body = fn["hir"]["body"]
     out = []
     for n, anc in hir.walk(body):
-        if n.get("k") == "Call" and hir.strip(n["f"]).get("to", {}).get("name") == "push":
+        if n.get("k") == "Call" and _SUFFIX.sub("", hir.strip(n["f"]).get("to", {}).get("name") or "") == "push":
             out.append((n, sym(n["args"][0]), hir.guards_of(n, body, sym) or []))
     return out, sym
 
